@@ -28,7 +28,7 @@ ALL_FIELDS = ["D", "F", "R", "P", "T", "E", "roots", "wroots", "vals", "raws", "
 
 # ---------------------------------------------------------------------------------------------
 # per-property configuration: which streams exercise it, which observation channels its statement
-# talks about (projection principle, DESIGN 5.3), which oracle families judge it
+# talks about (projection principle, DESIGN section 5), which oracle families judge it
 PROPS = {
     "C01": dict(streams=["corpus", "contract", "exh2", "exh3s", "api", "giveup"], fields=["D", "E", "roots"], oracles=["O1"],
                 contract=True, title="no premature destruction"),
@@ -750,7 +750,11 @@ def main():
                  "non-trivial if some operation destroyed two or more values at once or ran a reachability trace; distinct = distinct explicit op lists",
             samples=samples,
             traces_validated_against_impl=len(all_runs), diverging_cases=len(res["diff_runs"]),
-            channels_compared=cfg["fields"], oracles=cfg["oracles"], streams=dict(stats),
+            channels_compared=cfg["fields"],
+            oracles=cfg["oracles"] + [o for k, o in (("std", "O7"), ("layout", "O9"), ("panicapi", "O11"), ("bigring", "O15"),
+                                                       ("abort", "O16"), ("leakcheck", "O4-bytes")) if cfg.get(k)]
+                    + (["weakraw:" + cfg["weakraw"]] if cfg.get("weakraw") else []),
+            streams=dict(stats),
             op_distribution=dict(opkinds), outcome_distribution=dict(paths),
             known_finding_instances=dict(res["known_hits"]), extra=extra_cov, leanchecker=recheck,
         ),
